@@ -889,7 +889,7 @@ class StateMonitor:
     def state(self, ns, h, text, view, res):
         if self._seen is None:
             self._seen = set()
-        self._seen.add(text)
+        self._seen.add(hash(text))
         yield from self.check(ns, text, view, res)
 
     def __call__(self, ctx, res):
@@ -898,10 +898,11 @@ class StateMonitor:
             return
         if self._seen is None:
             self._seen = set()
-        if obs.after in self._seen:
+        h = hash(obs.after)
+        if h in self._seen:
             return
-        if len(self._seen) < 200000:
-            self._seen.add(obs.after)
+        if len(self._seen) < 2000000:
+            self._seen.add(h)
         av = ctx.after_view
         if av is None or av.base is None:
             return
